@@ -39,7 +39,7 @@ PROPS = {
 }
 
 BASE = dict(Cap=3, PerSender=2, MaxLast=2, MaxH=3, MaxNow=2, MaxBlk=2, LevelFee='FALSE', TierAt=2,
-            Defects='NoDefects', MaxRm=2, QueryOn='FALSE', SubW=1, MaxOps=0, EmitOn='TRUE', Ent=9, Tab='TabU9')
+            Defects='NoDefects', MaxRm=2, QueryOn='FALSE', NodeRig='FALSE', SubW=1, MaxOps=0, EmitOn='TRUE', Ent=9, Tab='TabU9')
 
 
 def cfg_text(view=None, invariants=(), properties=(), spec='Spec', **kw):
@@ -48,7 +48,7 @@ def cfg_text(view=None, invariants=(), properties=(), spec='Spec', **kw):
     lines = ['SPECIFICATION ' + spec, 'CONSTANTS',
              '  Ent = {%s}' % ', '.join(str(i) for i in range(1, c['Ent'] + 1)),
              '  Tab <- %s' % c['Tab'], '  Senders <- SendersABX', '  Defects <- %s' % c['Defects']]
-    for k in ('Cap', 'PerSender', 'MaxLast', 'MaxH', 'MaxNow', 'MaxBlk', 'LevelFee', 'TierAt', 'MaxRm', 'QueryOn', 'SubW',
+    for k in ('Cap', 'PerSender', 'MaxLast', 'MaxH', 'MaxNow', 'MaxBlk', 'LevelFee', 'TierAt', 'MaxRm', 'QueryOn', 'NodeRig', 'SubW',
               'MaxOps', 'EmitOn'):
         lines.append('  %s = %s' % (k, c[k]))
     if view:
@@ -77,7 +77,17 @@ def preplay(ctx, binary, bs, opts, shards=6, count=True, label='r'):
             sub.__dict__.update(ctx.__dict__)
             sub.evaluations = sub.traces = sub.nontrivial = 0
             sub.samples, sub.mismatches = [], []
-            sub.replay(binary, parts[i], opts=opts, par=1, count=True, timeout=3600, name='%s-%d-%d.ndjson' % (label, base, i))
+            for attempt in range(3):
+                try:
+                    sub.replay(binary, parts[i], opts=opts, par=1, count=True, timeout=3600,
+                               name='%s-%d-%d-%d.ndjson' % (label, base, i, attempt))
+                    break
+                except vlib.Broken as ex:
+                    # an overloaded machine can make the pool's 2 s nonce query time out: re-run the shard
+                    if 'SLOW:' not in str(ex) or attempt == 2:
+                        raise
+                    sub.evaluations = sub.traces = sub.nontrivial = 0
+                    sub.samples, sub.mismatches = [], []
             with lock:
                 if count:
                     ctx.evaluations += sub.evaluations
@@ -102,32 +112,173 @@ def preplay(ctx, binary, bs, opts, shards=6, count=True, label='r'):
 
 C21_INV = ('TypeOK', 'NoDup', 'CapOK', 'PerSenderOK', 'IndexAgree', 'LatestOK')
 
+# universes of Mempool_MC.tla: name -> number of entries
+U = dict(TabU5=5, TabU6=6, TabU9=9)
+
+
+def all_cfg(mode, **kw):
+    kw.setdefault('Ent', U[kw.get('Tab', 'TabU5')])
+    txt = cfg_text(spec='ASpec', **kw)
+    txt = txt.replace('CHECK_DEADLOCK FALSE', '  Mode = "%s"\nINVARIANT Export\nCHECK_DEADLOCK FALSE' % mode)
+    # constants must stay inside the CONSTANTS section
+    lines = txt.splitlines()
+    mode_line = [l for l in lines if l.startswith('  Mode')][0]
+    lines.remove(mode_line)
+    lines.insert(lines.index('CONSTANTS') + 1, mode_line)
+    return '\n'.join(lines) + '\n'
+
+
+def mc(ctx, st, q, invariants, properties, defects):
+    """Exhaustive check of the reference model on the small universe (quick) / the 6-entry universe (thorough)."""
+    # measured: quick 10 237 distinct / 284 689 generated states (TwoDefects)
+    if q:
+        kw = dict(Tab='TabU6', Ent=6, Cap=3, PerSender=2, MaxLast=2, MaxH=2, MaxNow=1, MaxBlk=1, LevelFee='TRUE', TierAt=2)
+        if defects == 'AllDefects':
+            defects = 'TwoDefects'
+    else:
+        kw = dict(Tab='TabU6', Ent=6, Cap=3, PerSender=2, MaxLast=2, MaxH=2, MaxNow=2, MaxBlk=2, LevelFee='TRUE', TierAt=2)
+    ctx.write_cfg(st, 'mc.cfg', cfg_text(view='view', invariants=invariants, properties=properties, Defects=defects,
+                                         MaxRm=1, EmitOn='FALSE', **kw))
+    r = ctx.tlc_mc('Mempool_MC', 'mc.cfg', workers=4, timeout=7200, stage=st, coverage=not q)
+    if not q and r.get('zero_actions'):
+        raise vlib.Broken('vacuous model-checking run, actions never taken: %s' % r['zero_actions'])
+    return r
+
+
+def concurrent_leg(ctx, b, q):
+    """C21 'schedules': recorded concurrent runs validated by Mempool_Trace (invariants at every linearised step)."""
+    import json
+    confs = [(4, 2, 3), (2, 1, 1)] if q else [(4, 2, 3), (2, 1, 1), (3, 3, 2), (5, 2, 4)]
+    last_ok = None
+    for i, (cap, per, last) in enumerate(confs):
+        opts = dict(n=2 if q else 6, workers=6, ops=30 if q else 60, phases=3, cap=cap, persender=per, maxlast=last)
+        tp, s = ctx.record(b, 'concurrent', opts=opts, timeout=3600, name='conc-%d.ndjson' % i)
+        r = ctx.tlc_trace('Mempool_Trace', 'Mempool_Trace.cfg', tp, timeout=3600)
+        ctx.states += r['states']
+        if r['accepted']:
+            ctx.traces += s.get('behaviours', 1)
+            ctx.evaluations += s.get('behaviours', 1)
+            ctx.nontrivial += s.get('nontrivial', 0)
+            for x in (s.get('samples') or [])[:1]:
+                if len(ctx.samples) < 6:
+                    ctx.samples.append(x)
+            last_ok = tp
+        else:
+            lines = [l for l in open(tp) if l.strip()]
+            m = r['matched'] if r['matched'] is not None else 0
+            failing = json.loads(lines[m]) if m < len(lines) else None
+            what = r['violation'] or 'no-matching-step'
+            sig = 'trace|concurrent|event=%s|%s' % ((failing or {}).get('ev', 'end'), what)
+            keep = os.path.join(vlib.REPLAYS, '%s-%s-trace-%d-concurrent-%d.json' % (ctx.prop, ctx.fam, ctx.seed, i))
+            json.dump(dict(property=ctx.prop, family=ctx.fam, seed=ctx.seed, tier=ctx.tier, opts=opts,
+                           extra=dict(kind='trace', recorder='concurrent', module='Mempool_Trace', cfg='Mempool_Trace.cfg', matched=m,
+                                      failing_event=failing, invariant=r['violation'], conf=json.loads(lines[0]),
+                                      prefix=[json.loads(l) for l in lines[max(1, m - 40):m + 1]]),
+                           signature=sig), open(keep, 'w'), indent=1)
+            ctx.mismatches.append(dict(signature=sig, replay=keep, expected='trace accepted by Mempool_Trace',
+                                       observed='rejected at event %d: %s' % (m, json.dumps(failing)[:300]), field='trace'))
+    if last_ok and not ctx.mismatches:
+        # binding self-test: drop one transaction from one recorded snapshot; TLC must reject the trace
+        def mutate(ev):
+            if ev.get('ev') == 'Push' and ev.get('ret') == 'ok' and ev.get('pool'):
+                ev['pool'] = ev['pool'][:-1]
+                return True
+            return False
+        ctx.trace_selftest('Mempool_Trace', 'Mempool_Trace.cfg', last_ok, mutate=mutate)
+
+
+def node_leg(ctx, b, st, q, label, **kw):
+    """Behaviours a full node can be made to perform (Reorg instead of a lone DelBlock, no lone sweep) replayed on a
+    util/testnode: blocks are executed by a factory node and delivered through BlockChain.ProcAddBlockMsg."""
+    name = 'gen_node_%s.cfg' % label
+    c = dict(Cap=3, PerSender=2, MaxLast=2, NodeRig='TRUE', SubW=2, MaxRm=1, MaxH=3, MaxNow=1)
+    c.update(kw)
+    ctx.write_cfg(st, name, cfg_text(**c))
+    bs = ctx.tlc_sim('Mempool_MC', name, num=24 if q else 240, depth=12 if q else 16, stage=st, keep_init=True,
+                     seed=ctx.seed * 10 + 7, timeout=3600)
+    n_reorg = sum(1 for x in bs if any(s.get('op') == 'Reorg' for s in x['steps']))
+    ctx.extra['node_rig'] = dict(behaviours=len(bs), with_reorganisation=n_reorg)
+    preplay(ctx, b, bs, dict(rig='node'), shards=4, label='node-' + label)
+
 
 def run(ctx):
     q = ctx.tier == 'quick'
     b = vlib.build(DRIVER)
     st = ctx.stage()
-    if ctx.prop == 'C21':
-        run_c21(ctx, q, b, st)
-    else:
-        raise vlib.Broken('not built yet: ' + ctx.prop)
+    ctx.assumptions += ['hash function and signatures trusted', 'one clock tick = 1000 s (> pool-age limit 600 s + 60 s margin)',
+                        'no 5-byte short-hash collisions among generated transactions',
+                        'blockchain / execs / rpc answers of the bare rig follow the model chain (executor check always passes)']
+    {'C21': run_c21, 'C22': run_c22, 'C23': run_c23}[ctx.prop](ctx, q, b, st)
 
 
 def run_c21(ctx, q, b, st):
     ctx.rule = ('behaviours = TLC simulation of Mempool.tla (Submit/AddBlock/DelBlock/Remove/Sweep/Tick) under several '
-                '(Cap, PerSender, MaxLast) configurations, full projection compared after every step; non-trivial = contains a '
-                'failed push (duplicate / per-sender limit / full), a removal of an absent hash, an expiry removal, or a '
-                'DelBlock re-admission; distinct by abstract action sequence')
-    ctx.assumptions += ['hash function and signatures trusted', 'one clock tick = 1000 s (> pool-age limit 600 s + 60 s margin)',
-                        'no 5-byte short-hash collisions among generated transactions']
-    ctx.write_cfg(st, 'q_mc.cfg', open(os.path.join(vlib.SPEC, 'Mempool', 'Mempool_MCq.cfg')).read())
-    ctx.tlc_mc('Mempool_MC', 'Mempool_MCq.cfg', workers=4, timeout=3600, stage=st)
-    n = 150 if q else 1500
-    for i, (cap, per, last) in enumerate([(3, 2, 2), (2, 1, 1), (2, 2, 3)] if q else [(3, 2, 2), (2, 1, 1), (2, 2, 3), (3, 1, 2), (4, 2, 2)]):
+                '(Cap, PerSender, MaxLast) configurations plus every history of 4 steps on the 5-entry universe, full projection '
+                'compared after every step; non-trivial = contains a failed push (duplicate / per-sender limit / full), a removal '
+                'of an absent hash, an expiry removal, or a DelBlock re-admission; distinct by abstract action sequence')
+    mc(ctx, st, q, C21_INV, ('BlockGone',), 'NoDefects')
+    n = 150 if q else 1200
+    confs = [(3, 2, 2), (2, 1, 1), (2, 2, 3)] if q else [(3, 2, 2), (2, 1, 1), (2, 2, 3), (3, 1, 2), (4, 2, 2), (1, 1, 1)]
+    for i, (cap, per, last) in enumerate(confs):
         name = 'gen_c21_%d.cfg' % i
         ctx.write_cfg(st, name, cfg_text(Cap=cap, PerSender=per, MaxLast=last))
-        bs = ctx.tlc_sim('Mempool_MC', name, num=n, depth=18, stage=st, keep_init=True, seed=ctx.seed * 10 + i, timeout=3600)
+        bs = ctx.tlc_sim('Mempool_MC', name, num=n, depth=18 if q else 24, stage=st, keep_init=True, seed=ctx.seed * 10 + i, timeout=3600)
         preplay(ctx, b, bs, dict(rig='bare'), label='c21-%d' % i)
+    # every bounded history on the small universe
+    ctx.write_cfg(st, 'all_c21.cfg', all_cfg('hist', Tab='TabU5', Cap=2, PerSender=1, MaxLast=1, MaxH=2, MaxNow=1, MaxBlk=1,
+                                             MaxRm=1, MaxOps=3 if q else 4))
+    allb = ctx.tlc_genall('Mempool_All', 'all_c21.cfg', stage=st, timeout=7200)
+    preplay(ctx, b, allb, dict(rig='bare'), label='c21-all')
+    ctx.extra['exhaustive_small_config'] = dict(cfg='all_c21.cfg (Mode=hist)', behaviours=len(allb))
+    node_leg(ctx, b, st, q, 'c21')
+    concurrent_leg(ctx, b, q)
+
+
+def run_c22(ctx, q, b, st):
+    ctx.rule = ('rows = for every pool/chain state reached by a bounded prefix (Submit / one-entry AddBlock / Tick) on the 5- and '
+                '6-entry universes, every entry x every static defect x member position plus the defect-free submission '
+                '(GEN-all, Mode=admit), and TLC simulations with defective submissions interleaved with blocks, rollbacks and '
+                'ticks; accept/reject and the projection (pool unchanged on reject) compared; non-trivial = a submission with '
+                'exactly one violated clause; distinct by abstract action sequence')
+    mc(ctx, st, q, C21_INV, ('RejectKeeps',), 'AllDefects')
+    tables = [dict(Tab='TabU5', Cap=2, PerSender=1, MaxLast=1, LevelFee='TRUE', TierAt=1, MaxOps=2 if q else 3),
+              dict(Tab='TabU6', Cap=3, PerSender=2, MaxLast=2, LevelFee='FALSE', TierAt=2, MaxOps=2 if q else 3)]
+    total = 0
+    for i, t in enumerate(tables):
+        name = 'all_c22_%d.cfg' % i
+        ctx.write_cfg(st, name, all_cfg('admit', Defects='AllDefects', MaxH=2, MaxNow=1, MaxBlk=1, MaxRm=1, **t))
+        allb = ctx.tlc_genall('Mempool_All', name, stage=st, timeout=7200)
+        total += len(allb)
+        preplay(ctx, b, allb, dict(rig='bare'), label='c22-all-%d' % i)
+    ctx.extra['exhaustive_small_config'] = dict(cfg='all_c22_*.cfg (Mode=admit)', behaviours=total)
+    n = 120 if q else 1000
+    for i, (cap, per, lvl, tier) in enumerate([(3, 2, 'TRUE', 2), (2, 1, 'FALSE', 2)] if q else
+                                              [(3, 2, 'TRUE', 2), (2, 1, 'FALSE', 2), (3, 1, 'TRUE', 1), (4, 2, 'TRUE', 3)]):
+        name = 'gen_c22_%d.cfg' % i
+        ctx.write_cfg(st, name, cfg_text(Cap=cap, PerSender=per, LevelFee=lvl, TierAt=tier, Defects='AllDefects', MaxRm=1, SubW=4))
+        bs = ctx.tlc_sim('Mempool_MC', name, num=n, depth=16 if q else 22, stage=st, keep_init=True, seed=ctx.seed * 10 + i, timeout=3600)
+        preplay(ctx, b, bs, dict(rig='bare'), label='c22-%d' % i)
+
+
+def run_c23(ctx, q, b, st):
+    ctx.rule = ('behaviours = TLC simulation with producer-list requests (count 1..Cap+1, exclusion lists over pool members and '
+                'absent hashes) interleaved with submissions, blocks, rollbacks, removals and clock ticks on the 9-entry universe '
+                '(4 eth-signed entries with a nonce gap and a duplicate nonce, expiry by height, block time and age), plus every '
+                'request against every state of a bounded prefix (GEN-all, Mode=list); each real reply judged by the predicates '
+                'of the statement; non-trivial = a request with an expired or excluded pool member, or an eth sender with >= 2 '
+                'pool entries; distinct by abstract action sequence')
+    mc(ctx, st, q, C21_INV + ('C23OK',), (), 'NoDefects')
+    ctx.write_cfg(st, 'all_c23.cfg', all_cfg('list', Tab='TabU6', Cap=3, PerSender=3, MaxLast=2, MaxH=2, MaxNow=1, MaxBlk=1,
+                                             MaxRm=1, MaxOps=3 if q else 4))
+    allb = ctx.tlc_genall('Mempool_All', 'all_c23.cfg', stage=st, timeout=7200)
+    preplay(ctx, b, allb, dict(rig='bare'), label='c23-all')
+    ctx.extra['exhaustive_small_config'] = dict(cfg='all_c23.cfg (Mode=list)', behaviours=len(allb))
+    n = 150 if q else 1200
+    for i, (cap, per) in enumerate([(4, 3), (3, 2)] if q else [(4, 3), (3, 2), (5, 4), (2, 2)]):
+        name = 'gen_c23_%d.cfg' % i
+        ctx.write_cfg(st, name, cfg_text(Cap=cap, PerSender=per, QueryOn='TRUE', SubW=5, MaxRm=1, MaxH=3, MaxNow=2))
+        bs = ctx.tlc_sim('Mempool_MC', name, num=n, depth=24 if q else 30, stage=st, keep_init=True, seed=ctx.seed * 10 + i, timeout=3600)
+        preplay(ctx, b, bs, dict(rig='bare'), label='c23-%d' % i)
 
 
 import vlib  # noqa: E402
